@@ -1895,6 +1895,8 @@ class GaussianTimeFluxProfile(
             time_unit=time_unit,
             **kwargs)
 
+        self._tol = tol
+
         self.t0 = t0
         self.sigma_t = sigma_t
 
@@ -1937,6 +1939,13 @@ class GaussianTimeFluxProfile(
             sigma,
             'The sigma_t property must be castable to type float!')
         self._sigma_t = sigma
+
+        # The start and stop time of the profile depend on the width of the
+        # gaussian. Recalculate them for the new width around the mid time.
+        t0 = self.t0
+        dt = np.sqrt(-2 * sigma**2 * np.log(self._tol))
+        self._t_start = t0 - dt
+        self._t_stop = t0 + dt
 
     def __call__(
             self,
